@@ -27,7 +27,24 @@ class runtime_like(Feedback):
     message_template = "runtime"
 
 
-CTORS = {'Feedback': Feedback, 'compliment': C.compliment, 'set_correct': C.set_correct, 'give_partial': C.give_partial,
+class muted_default(Feedback):
+    """ muted unless the call says otherwise """
+    category = Feedback.CATEGORIES.INSTRUCTOR
+    valence = Feedback.NEGATIVE_VALENCE
+    kind = Feedback.KINDS.MISTAKE
+    muted = True
+    message_template = "quiet"
+
+
+class unscored_default(Feedback):
+    category = Feedback.CATEGORIES.INSTRUCTOR
+    valence = Feedback.NEGATIVE_VALENCE
+    kind = Feedback.KINDS.MISTAKE
+    unscored = True
+    message_template = "no points"
+
+
+CTORS = {'muted_default': muted_default, 'unscored_default': unscored_default, 'Feedback': Feedback, 'compliment': C.compliment, 'set_correct': C.set_correct, 'give_partial': C.give_partial,
          'gently': C.gently, 'explain': C.explain, 'guidance': C.guidance, 'neg': neg_fb, 'runtime_like': runtime_like}
 
 
@@ -45,6 +62,7 @@ def snap(f, i, active):
             fields[k] = v
     return {'id': i, 'active_list': active, 'category': f.category, 'label': f.label, 'priority': f.priority,
             'kind': f.kind, 'muted': bool(f.muted), 'unscored': bool(f.unscored), 'triggered': bool(f),
+            'class_muted': bool(getattr(type(f), 'muted', False)), 'class_unscored': bool(getattr(type(f), 'unscored', False)),
             'else': bool(f.else_message), 'correct': bool(f.correct),
             'score': None if f.score is None else str(f.score), 'score_type': type(f.score).__name__,
             'negative': f.valence == Feedback.NEGATIVE_VALENCE, 'valence': f.valence,
@@ -60,9 +78,11 @@ def run_case(case):
     MAIN_REPORT.full_clear()
     objs = []
     ctor_errors = []
-    for spec in case['feedbacks']:
+    spec_index = {}
+    for k, spec in enumerate(case['feedbacks']):
         try:
             objs.append(build(spec))
+            spec_index[id(objs[-1])] = k
         except Exception as e:  # constructor refused (e.g. compliment without message)
             ctor_errors.append(type(e).__name__)
     for s in case['suppress']:
@@ -76,8 +96,8 @@ def run_case(case):
         C.suppress(**kw)
     ids = {id(o): i for i, o in enumerate(objs)}
     order = [o for o in MAIN_REPORT.feedback] + [o for o in MAIN_REPORT.ignored_feedback]
-    snaps_active = [snap(o, ids[id(o)], True) for o in MAIN_REPORT.feedback if id(o) in ids]
-    snaps_ignored = [snap(o, ids[id(o)], False) for o in MAIN_REPORT.ignored_feedback if id(o) in ids]
+    snaps_active = [dict(snap(o, ids[id(o)], True), spec=spec_index[id(o)]) for o in MAIN_REPORT.feedback if id(o) in ids]
+    snaps_ignored = [dict(snap(o, ids[id(o)], False), spec=spec_index[id(o)]) for o in MAIN_REPORT.ignored_feedback if id(o) in ids]
     out = {'active': snaps_active, 'ignored': snaps_ignored, 'ctor_errors': ctor_errors,
            'suppressions': repr(MAIN_REPORT.suppressions), 'suppressed_labels': repr(MAIN_REPORT.suppressed_labels)}
     try:
